@@ -63,79 +63,7 @@ fn misc_safe_api_inner(rep: &mut Report) {
     rep.transitions += 30;
     rep.states += 1;
 
-    // array macros incl. non-Copy / by-value / ZST / length 0
-    let a0: [u8; 0] = [];
-    let _: [u16; 0] = konst::array::map!(a0, |x| x as u16);
-    let a3 = [1u8, 2, 3];
-    assert_eq!(konst::array::map!(a3, |x| x as u16 * 2), [2, 4, 6]);
-    let s3 = [String::from("a"), String::from("b"), String::from("c")];
-    assert_eq!(konst::array::map!(s3, |ref s| s.len()), [1, 1, 1]);
-    assert_eq!(konst::array::map_!(s3, |s| s + "!"), ["a!", "b!", "c!"]);
-    let u3 = [(), (), ()];
-    assert_eq!(konst::array::map_!(u3, |_x| 7u8), [7, 7, 7]);
-    assert_eq!(konst::array::from_fn!([String; 2] => |i| i.to_string()), ["0", "1"]);
-    assert_eq!(konst::array::from_fn_!([String; 2] => |i| i.to_string()), ["0", "1"]);
-    let _: [(); 4] = konst::array::from_fn_!(|_i| ());
-    // panicking closure in the by-value map: elements must be dropped (no double free / leak is fine)
-    let s2 = [String::from("p"), String::from("q")];
-    let mut n = 0;
-    let r = catch(|| konst::array::map_!(s2, |s| { n += 1; if n == 2 { panic!("x") } s }));
-    assert!(r.is_err());
-    // hostile control flow inside the closure: a one-off `continue` re-runs the element, a `break` must be refused;
-    // in neither case may an unwritten slot reach array_assume_init (the interpreter flags the uninitialised read)
-    let mut once = true;
-    let h1 = konst::array::map!(a3, |x| { if once { once = false; continue; } x as u16 + 1 });
-    assert_eq!(h1, [2, 3, 4]);
-    let mut once = true;
-    let h2: [usize; 3] = konst::array::from_fn!(|i| { if i == 1 && once { once = false; continue; } i * 2 });
-    assert_eq!(h2, [0, 2, 4]);
-    for k in 0..3usize {
-        let mut n = 0usize;
-        let r = catch(|| konst::array::map!(a3, |x| { let i = n; n += 1; if i == k { break; } x }));
-        assert!(r.is_err(), "break inside array::map! must not yield an array");
-        let mut n = 0usize;
-        let r = catch(|| konst::array::from_fn_!(|_i| { let i = n; n += 1; if i == k { break; } String::from("s") }));
-        assert!(r.map(|a: [String; 3]| a.len()).is_err(), "break inside array::from_fn_! must not yield an array");
-    }
-    rep.transitions += 20;
-
-    // destructure! incl. packed / generic / arrays with rest
-    #[repr(packed)]
-    struct P { a: u8, b: String, c: u64 }
-    struct G<T>(T, String);
-    let p = P { a: 1, b: String::from("b"), c: 9 };
-    konst::destructure! {P {a, b, c} = p}
-    assert_eq!((a, b.as_str(), c), (1, "b", 9));
-    let g = G(vec![1u8], String::from("g"));
-    konst::destructure! {G(x, y) = g}
-    assert_eq!((x, y.as_str()), (vec![1u8], "g"));
-    let arr = [String::from("0"), String::from("1"), String::from("2"), String::from("3")];
-    konst::destructure! {[first, mid @ .., last] = arr}
-    assert_eq!((first.as_str(), mid.len(), last.as_str()), ("0", 2, "3"));
-    let arr = [String::from("0"), String::from("1"), String::from("2")];
-    konst::destructure! {[_, .., l2] = arr}
-    assert_eq!(l2, "2");
-    let t = (String::from("t"), 5u8, vec![1u16]);
-    konst::destructure! {(t0, _, t2) = t}
-    assert_eq!((t0.as_str(), t2.len()), ("t", 1));
-    rep.transitions += 5;
-
-    // iterator DSL at run time (incl. collect-like use through for_each) and string iterators inside it
-    let xs = [3u16, 1, 2, 5];
-    let mut out = Vec::new();
-    konst::iter::for_each! {((i, x), z) in &xs, rev(), enumerate(), zip(10u8..) => out.push((i, *x, z)); }
-    assert_eq!(out.len(), 4);
-    let c = konst::iter::eval!(konst::string::split("a,ñ,€", ","), flat_map(|s| konst::string::chars(s)), count());
-    assert_eq!(c, 3);
-    let f = konst::iter::eval!(konst::slice::windows(&xs, 2), rfind(|w| w[0] > w[1]));
-    assert_eq!(f, Some(&[3u16, 1][..]));
-    const CC: [(usize, &u16); 2] = konst::iter::collect_const!((usize, &u16) => &[7u16, 8, 9], enumerate(), skip(1));
-    assert_eq!(CC, [(1, &8), (2, &9)]);
-    const S: &str = konst::string::from_iter!(&["ñ", "€"], rev());
-    assert_eq!(S, "€ñ");
-    assert_eq!(konst::string::str_join!('€', &["a", "b"]), "a€b");
-    assert_eq!(konst::slice::slice_concat!(u16, &[&[1], &[], &[2, 3]]), [1, 2, 3]);
-    rep.transitions += 8;
+    misc_macros(rep);
     // string::from_utf8, chr
     assert!(konst::string::from_utf8(&[0xC3, 0xB1]).is_ok());
     assert!(konst::string::from_utf8(&[0xC3]).is_err());
@@ -149,27 +77,76 @@ fn misc_safe_api_inner(rep: &mut Report) {
     rep.transitions += 20;
 }
 
+#[cfg(not(feature = "misc_macros"))]
+fn misc_macros(rep: &mut Report) {
+    rep.notes.push("NOT-COMPILED: the macro half of the misc safe-API driver is not part of this build (it does not build against this tree)".into());
+}
+
+#[cfg(feature = "misc_macros")]
+use crate::c01m::misc_macros;
+
+macro_rules! engine_fn {
+    ($f:ident, $feat:literal, $name:literal, |$t:ident, $r:ident| $body:expr) => {
+        #[cfg(feature = $feat)]
+        fn $f($t: Tier, $r: &mut Report) {
+            $body;
+        }
+        #[cfg(not(feature = $feat))]
+        fn $f(_t: Tier, r: &mut Report) {
+            r.notes.push(format!("NOT-COMPILED: engine {} is not part of this build (its module does not build against this tree)", $name));
+        }
+    };
+}
+engine_fn!(e_c02, "e02", "C02", |t, r| crate::c02::run(t, r));
+engine_fn!(e_c03, "e03", "C03", |t, r| crate::c03::run(t, r));
+engine_fn!(e_c04, "e04", "C04", |t, r| crate::c04::run(t, r));
+engine_fn!(e_c05, "e05", "C05", |t, r| crate::c05::run(t, r));
+engine_fn!(e_c06, "e06", "C06", |t, r| crate::c06::run(t, r));
+engine_fn!(e_c07, "e07", "C07", |t, r| crate::c07::run(t, r));
+engine_fn!(e_c08, "e08", "C08", |t, r| crate::c08::run(t, r));
+engine_fn!(e_c09, "e09", "C09", |t, r| crate::c09::run(t, r));
+engine_fn!(e_c12, "e12", "C12", |t, r| crate::c12::run(t, r));
+engine_fn!(e_c13, "e13", "C13", |t, r| crate::c13::run("C13", t, r));
+engine_fn!(e_c15, "e15", "C15", |t, r| crate::c15::run("C15", t, r));
+engine_fn!(e_c16, "e16", "C16", |t, r| crate::c16::run(t, r));
+engine_fn!(e_c20, "e20", "C20", |t, r| crate::c20::run(t, r));
+
+/// does a Debug rendering contain a `\u{X}` escape whose value is not a Unicode scalar value?
+fn mentions_invalid_char(s: &str) -> bool {
+    let mut rest = s;
+    while let Some(i) = rest.find("\\u{") {
+        rest = &rest[i + 3..];
+        let hex: String = rest.chars().take_while(|c| c.is_ascii_hexdigit()).collect();
+        if let Ok(v) = u32::from_str_radix(&hex, 16) {
+            if v > 0x10FFFF || (0xD800..=0xDFFF).contains(&v) {
+                return true;
+            }
+        }
+    }
+    false
+}
+
 pub fn run(tier: Tier, rep: &mut Report) -> (String, String) {
     let mut rule = String::new();
     if tier == Tier::Miri {
         let deep = miri_deep();
         let mut plan: Vec<(&str, Box<dyn Fn(&mut Report)>)> = vec![
             ("misc safe API (maybe_uninit, manually_drop, ptr, nonnull, array macros, destructure!, DSL, concat macros)", Box::new(|r| misc_safe_api(r))),
-            ("C02 slice indexing", Box::new(|r| { crate::c02::run(Tier::Miri, r); })),
-            ("C03 string slicing", Box::new(|r| { crate::c03::run(Tier::Miri, r); })),
-            ("C04 search", Box::new(|r| { crate::c04::run(Tier::Miri, r); })),
-            ("C05 strip/trim", Box::new(|r| { crate::c05::run(Tier::Miri, r); })),
-            ("C06 split iterators", Box::new(|r| { crate::c06::run(Tier::Miri, r); })),
-            ("C07 chars", Box::new(|r| { crate::c07::run(Tier::Miri, r); })),
-            ("C08 slice iterators", Box::new(|r| { crate::c08::run(Tier::Miri, r); })),
-            ("C09 ranges", Box::new(|r| { crate::c09::run(Tier::Miri, r); })),
-            ("C15 consumer/builder ledger", Box::new(|r| { crate::c15::run("C15", Tier::Miri, r); })),
-            ("C20 cstr", Box::new(|r| { crate::c20::run(Tier::Miri, r); })),
+            ("C02 slice indexing", Box::new(|r| e_c02(Tier::Miri, r))),
+            ("C03 string slicing", Box::new(|r| e_c03(Tier::Miri, r))),
+            ("C04 search", Box::new(|r| e_c04(Tier::Miri, r))),
+            ("C05 strip/trim", Box::new(|r| e_c05(Tier::Miri, r))),
+            ("C06 split iterators", Box::new(|r| e_c06(Tier::Miri, r))),
+            ("C07 chars", Box::new(|r| e_c07(Tier::Miri, r))),
+            ("C08 slice iterators", Box::new(|r| e_c08(Tier::Miri, r))),
+            ("C09 ranges", Box::new(|r| e_c09(Tier::Miri, r))),
+            ("C15 consumer/builder ledger", Box::new(|r| e_c15(Tier::Miri, r))),
+            ("C20 cstr", Box::new(|r| e_c20(Tier::Miri, r))),
         ];
         if deep {
-            plan.push(("C13 parser", Box::new(|r| { crate::c13::run("C13", Tier::Miri, r); })));
-            plan.push(("C12 parsing", Box::new(|r| { crate::c12::run(Tier::Miri, r); })));
-            plan.push(("C16 comparisons", Box::new(|r| { crate::c16::run(Tier::Miri, r); })));
+            plan.push(("C13 parser", Box::new(|r| e_c13(Tier::Miri, r))));
+            plan.push(("C12 parsing", Box::new(|r| e_c12(Tier::Miri, r))));
+            plan.push(("C16 comparisons", Box::new(|r| e_c16(Tier::Miri, r))));
         }
         // VERIF_C01_ENGINES=i,j,.. selects plan entries (the driver runs them as parallel interpreter processes)
         let only: Option<Vec<usize>> = std::env::var("VERIF_C01_ENGINES").ok().map(|s| s.split(',').filter_map(|x| x.parse().ok()).collect());
@@ -191,6 +168,7 @@ pub fn run(tier: Tier, rep: &mut Report) -> (String, String) {
             rep.range_checks += r.range_checks;
             rep.utf8_checks += r.utf8_checks;
             rep.machinery_errors.extend(r.machinery_errors);
+            rep.notes.extend(r.notes.iter().filter(|n| n.starts_with("NOT-COMPILED")).cloned());
             // functional disagreements belong to their own property's check; C01 keeps only the location / UTF-8 oracle's verdicts
             for x in v {
                 let o = format!("{} {}", x.expected, x.observed);
@@ -205,12 +183,14 @@ pub fn run(tier: Tier, rep: &mut Report) -> (String, String) {
     } else {
         // native: only the engines carrying the sub-range / UTF-8 oracle; keep only the oracle's verdicts
         let plan: Vec<(&str, Box<dyn Fn(&mut Report)>)> = vec![
-            ("C03", Box::new(move |r| { crate::c03::run(tier, r); })),
-            ("C04", Box::new(move |r| { crate::c04::run(tier, r); })),
-            ("C05", Box::new(move |r| { crate::c05::run(tier, r); })),
-            ("C06", Box::new(move |r| { crate::c06::run(tier, r); })),
-            ("C13", Box::new(move |r| { crate::c13::run("C13", tier, r); })),
-            ("C20", Box::new(move |r| { crate::c20::run(tier, r); })),
+            ("C03", Box::new(move |r| e_c03(tier, r))),
+            ("C04", Box::new(move |r| e_c04(tier, r))),
+            ("C05", Box::new(move |r| e_c05(tier, r))),
+            ("C06", Box::new(move |r| e_c06(tier, r))),
+            ("C13", Box::new(move |r| e_c13(tier, r))),
+            ("C20", Box::new(move |r| e_c20(tier, r))),
+            // chars / char_indices / from_u32: a yielded value that is not a Unicode scalar value is an invalid `char`
+            ("C07", Box::new(move |r| e_c07(tier, r))),
         ];
         for (name, f) in plan {
             let mut r = Report::default();
@@ -219,17 +199,23 @@ pub fn run(tier: Tier, rep: &mut Report) -> (String, String) {
             rep.range_checks += r.range_checks;
             rep.utf8_checks += r.utf8_checks;
             rep.traces += r.traces;
+            rep.notes.extend(r.notes.iter().filter(|n| n.starts_with("NOT-COMPILED")).cloned());
             for x in r.violations {
                 let o = format!("{} {}", x.expected, x.observed);
                 if o.contains("sub-string") || o.contains("outside") || o.contains("not valid UTF-8") || o.contains("char boundaries") || o.contains("Outside") {
+                    rep.violation(x);
+                } else if mentions_invalid_char(&x.observed) {
+                    let mut x = x;
+                    x.expected = format!("only valid chars (Unicode scalar values); functionally: {}", x.expected);
+                    x.observed = format!("an invalid char was produced: {}", x.observed);
                     rep.violation(x);
                 }
             }
         }
         misc_safe_api(rep);
-        rep.sample(|| "native sub-range / UTF-8 oracle over the string engines (C03, C04, C05, C06, C13, C20)".into());
+        rep.sample(|| "native sub-range / UTF-8 oracle over the string engines (C03, C04, C05, C06, C13, C20) and valid-char oracle over C07".into());
         rep.nontrivial = rep.range_checks;
-        rule.push_str("native stage: every non-empty &str / slice returned during the C03, C04, C05, C06, C13, C20 explorations must lie inside the argument it was derived from, be valid UTF-8 and start/end on char boundaries of that argument (range_checks / utf8_checks count the checks)");
+        rule.push_str("native stage: every non-empty &str / slice returned during the C03, C04, C05, C06, C13, C20 explorations must lie inside the argument it was derived from, be valid UTF-8 and start/end on char boundaries of that argument (range_checks / utf8_checks count the checks); every char yielded during the C07 exploration (chars, char_indices, from_u32) must be a Unicode scalar value");
     }
     (rule, format!("see the per-engine bounds of the respective properties (tier {})", tier.name()))
 }
